@@ -142,6 +142,8 @@ func (w *WebsocketConnection) handlePing() {
 
 func (w *WebsocketConnection) closeWithError(err error, reason string) {
 	logging.Log().Debug(w.remoteSki, reason, err)
+	// release the close channel and the socket before the closed flag makes close() a no-op
+	w.close()
 	w.setConnClosedError(err)
 	w.dataProcessing.ReportConnectionError(err)
 }
